@@ -502,7 +502,9 @@ def subst_locals(fn_node: ast.AST, expr: ast.expr, keep: set[str] | None = None)
     for n in ast.walk(fn_node):
         if isinstance(n, ast.Assign) and len(n.targets) == 1 and isinstance(n.targets[0], ast.Name):
             defs.setdefault(n.targets[0].id, []).append(n.value)
-        elif isinstance(n, (ast.AugAssign, ast.AnnAssign, ast.For, ast.NamedExpr, ast.withitem)) or (isinstance(n, ast.Assign) and not isinstance(n.targets[0], ast.Name)):
+        elif isinstance(n, ast.NamedExpr) and isinstance(n.target, ast.Name):
+            defs.setdefault(n.target.id, []).append(n.value)
+        elif isinstance(n, (ast.AugAssign, ast.AnnAssign, ast.For, ast.withitem)) or (isinstance(n, ast.Assign) and not isinstance(n.targets[0], ast.Name)):
             for x in ast.walk(n.target if hasattr(n, "target") else (n.targets[0] if isinstance(n, ast.Assign) else (n.optional_vars or ast.Pass()))):
                 if isinstance(x, ast.Name) and isinstance(x.ctx, ast.Store):
                     defs.setdefault(x.id, []).extend([ast.Constant(value=None)] * 2)
@@ -515,5 +517,11 @@ def subst_locals(fn_node: ast.AST, expr: ast.expr, keep: set[str] | None = None)
         def visit_Name(self, node: ast.Name) -> ast.AST:
             if isinstance(node.ctx, ast.Load) and node.id in alias:
                 return ast.copy_location(copy.deepcopy(alias[node.id]), node)
+            return node
+
+        def visit_NamedExpr(self, node: ast.NamedExpr) -> ast.AST:
+            if isinstance(node.target, ast.Name) and node.target.id in alias:
+                return ast.copy_location(copy.deepcopy(alias[node.target.id]), node)
+            self.generic_visit(node)
             return node
     return S().visit(copy.deepcopy(expr))
